@@ -104,8 +104,12 @@ def generate():
     if "low_water_mark()" not in r or r.index("low_water_mark()") > r.index("for"):
         raise ExtractError("reclaim_start_from: the low water mark is no longer read inside it, once, before the walk")
 
-    # ---- stop / retire
+    # ---- start / stop / retire: the whole statement text of the two life-cycle functions
+    st = fn("start")
+    items.append(str_def("startBody", _norm(st)))
+    items.append(skel_def("skel_start", skeleton(st, ["joinable", "clear", "reserve_and_clear", "swap", r"::std::thread"])))
     s = fn("stop")
+    items.append(str_def("stopBody", _norm(s)))
     items.append(skel_def("skel_stop", skeleton(s, ["joinable", "push", "join"])))
     items.append(bool_list_def("stopPushFlags", _tmpl_flags(s, "push")))
     if not re.search(r"push<[^>]*>\(\s*ReclaimTask\s*\{\s*\}\s*\)", s):
